@@ -37,7 +37,10 @@ META = {
                   "property does not name (keyword names, numpy scalars / np.bool_ / 0-1 flags, list / tuple / ndarray translation "
                   "vectors, scipy Rotation objects, Euler angles) is answered or refused (if refused the same call is made again with "
                   "positional python numbers, a Vec and a 3x3 array; if answered it must satisfy the property); the convention of "
-                  "several Euler angles (any composition of the quarter turns is accepted; one angle is unambiguous); merge([]) "
+                  "several Euler angles in the ORACLE (any composition of the quarter turns is accepted; one angle is unambiguous; no "
+                  "docstring, test or tutorial of the library fixes it) - but the convention the code hands to scipy is "
+                  "regenerated (Gen.euler_seq) and the theorem C06_euler_form_of_rotate / C06_structure_of_the_code is about "
+                  "'xyz' = fixed axes, R = Rz Ry Rx: a change of the string breaks that obligation (no-failing-input-found); merge([]) "
                   "(None, a refusal or an empty mesh); the ORDER of edges / faces / cells in a merge result and the rotation of a "
                   "face row (multisets; only vertices are ordered, by the running count), the numbering of its corners (the corner "
                   "containers must describe the result's own faces / cells), whether a merge result or a copy_attributes=False copy "
